@@ -15,6 +15,11 @@ Line-protocol driver for C19 (see harness/cmd/vh/c19.go for the Go side).
   dec <sys> <bits>      ExcelDateToTime on an arbitrary float64
   encf <sys> <unixsec> <ns>   timeToExcelTime on the instant, float64 bit pattern of the result
                         (model: `Impl.timeToExcelTimeF` instantiated with `Float`)
+  cell <wb> <pre> <y> … <off> <zone>   SetCellValue(time) on a fresh workbook through the public API
+                        (model: `Impl.setCellTimeFunc` — workbook flag, `getTimeNumFmt`, `setDefaultTimeStyle`)
+  dur <ns> <bits>       SetCellValue(time.Duration): error of the float32-formatted text, nearest second,
+                        `getDurationNumFmt`
+  edt <sys> <bits>      ExcelDateToTime (model: `Impl.excelDateToTimeF` on `Float`)
   decf <sys> <bits>     timeFromExcelTime (hook, no negative guard) on an arbitrary float64
                         (model: `Impl.timeFromExcelTimeF` instantiated with `Float`)
   civ <z>               day number → (y, m, d) → day number
@@ -125,6 +130,42 @@ def step (w : List String) : String :=
   | ["dec", sys, bits] =>
     match (parseHexNat bits).bind ratOfBits with
     | some x => match Impl.excelDateToTime x (sys = "1") with
+      | .ok t => "ok " ++ showCivil (civilOf t)
+      | .error _ => "E_NEG"
+    | none => "bad-op"
+  | ["cell", wb, pre, y, m, d, h, mi, s, ns, off, _zone] =>
+    match parseInt? y, parseInt? m, parseInt? d, parseInt? h, parseInt? mi, parseInt? s, parseInt? ns, parseInt? off with
+    | some y, some m, some d, some h, some mi, some s, some ns, some off =>
+      let c : Civil := { y := y, m := m, d := d, h := h, mi := mi, s := s, ns := ns }
+      let flag : Option Bool := if wb = "1" then some true else if wb = "0" then some false else none
+      let cur : Option Impl.CellStyle :=
+        if pre = "1" then some { numFmt := 0, custom := false, bold := true }
+        else if pre = "2" then some { numFmt := 0, custom := true, bold := true }
+        else if pre = "3" then some { numFmt := 14, custom := false, bold := true }
+        else none
+      let wall := instantOf c
+      let (st, style) := Impl.setCellTimeFunc flag cur (wall - off * nsPerSec) off c
+      let bits := match st with
+        | .num _ => hex16 (Impl.timeToExcelTimeF floatOps wall (wb = "1")).toBits.toNat
+        | .text => "text"
+      let b2s (b : Bool) : String := if b then "1" else "0"
+      match style with
+      | some x => s!"bits={bits} fmt={x.numFmt} custom={b2s x.custom} bold={b2s x.bold}"
+      | none => s!"bits={bits} fmt=0 custom=0 bold=0"
+    | _, _, _, _, _, _, _, _ => "bad-op"
+  | ["dur", ns, bits] =>
+    match parseInt? ns, (parseHexNat bits).bind ratOfBits with
+    | some ns, some x =>
+      let exact := Impl.durationSerial ns
+      let dlt := x - exact
+      let e := if (if dlt < 0 then -dlt else dlt) ≤ durTol ns then "1" else "0"
+      let k := if ns ≥ 0 ∧ ns % 1000000000 = 0 ∧ ns < 4194304 * 1000000000
+        then toString (x * 86400 + (1 : Rat) / 2).floor else "-"
+      s!"e={e} k={k} fmt={Impl.getDurationNumFmt ns}"
+    | _, _ => "bad-op"
+  | ["edt", sys, bits] =>
+    match parseHexNat bits with
+    | some b => match Impl.excelDateToTimeF floatOps2 (Float.ofBits b.toUInt64) (sys = "1") with
       | .ok t => "ok " ++ showCivil (civilOf t)
       | .error _ => "E_NEG"
     | none => "bad-op"
